@@ -393,4 +393,16 @@ def judgeBytes : P Verdict := do
     | none => st == "ok" || st == "clienterror"
   pure { prop := ok, corr := ok, bit := none, msg := if ok then "" else s!"{route}: {st}" }
 
+/-- `Cxx conc <what> <rounds> | <nonlinearizable> <unknown>`: recorded concurrent histories that admit
+    no sequential order respecting real time (porcupine search against the sequential map spec). -/
+def judgeConc : P Verdict := do
+  let what ← tok
+  let rounds ← nat
+  expect "|"
+  let bad ← nat
+  let unknown ← nat
+  let ok := bad == 0
+  pure { prop := ok, corr := ok, bit := none,
+         msg := if ok then "" else s!"{what}: {bad} of {rounds} concurrent histories are not linearizable ({unknown} undecided)" }
+
 end EtVerif.Driver
